@@ -406,8 +406,23 @@ func raceCorpus(s *sharedState, yield bool) []raceOp {
 		f, _ := numOf(v)
 		return f * 2, nil
 	})
+	// a filter function applied to CONTAINERS of the shared document (the document's own arrays and objects are
+	// handed to user code: whatever the library does around that call happens on shared data)
+	cfg.SetFilterFunction("size", func(v interface{}) (interface{}, error) {
+		runtime.Gosched()
+		switch x := v.(type) {
+		case []interface{}:
+			return float64(len(x)), nil
+		case map[string]interface{}:
+			return float64(len(x)), nil
+		case string:
+			return float64(len(x)), nil
+		}
+		return 0.0, nil
+	})
 	shared := map[string]evalFn{}
 	paths := []string{
+		`$.l.size()`, `$.m.r.size()`, `$.m.size()`, `$..[?(@.size() > 1)]`, `$.l[?(@.size() == 1)].a`, `$.s.size()`, `$.*.size()`,
 		`$`, `$.l`, `$.l[0].a`, `$.l[*].a`, `$..a`, `$..*`, `$.l[0,1,2]`, `$.l[1:5:2]`, `$.l[::-1]`, `$.l[*,0]`, `$.l[0,*]`, `$.m[*,*]`, `$.m['q','r']`,
 		`$.l[?(@.a)]`, `$.l[?(!@.b)]`, `$.l[?(@.a == 2)]`, `$.l[?(2 == @.a)]`, `$.l[?(@.a != 2)]`, `$.l[?(@.a < 3)]`, `$.l[?(@.a <= 3)]`, `$.l[?(@.a > 18)]`, `$.l[?(@.a >= 18)]`,
 		`$.l[?(@.a == $.x)]`, `$.l[?($.x == 2)]`, `$.l[?($.x == 3)]`, `$.l[?(1 == 2)]`, `$.l[?(1 < $.x)]`, `$.l[?(3 < $.x)]`, `$.l[?(3 <= $.x)].a`, `$.l[?($.x > @.a)]`, `$.l[?(@.zz != $.zz)]`, `$.l[?(@.a =~ /a/)]`, `$.l[?(@.a == 1 || @.a == 3)]`,
